@@ -179,6 +179,19 @@ def gen_C02(chk):
             one = ("B", rng.choice(["And", "Or"]), nests[0], ("B", rng.choice(["And", "Or"]), nests[1], nests[2]))
             chk.add_eval(net, 2, "es", [one], ctx=ctx, tag="nests-one", netname=nm)
             chk.add_eval(net, 2, "es", nests, ctx=ctx, tag="nests-batch", netname=nm)
+        # a closed sub-formula evaluated first inside a restricted scope and then outside it (same
+        # formula, sibling quantifier, next formula of the batch): its value must not be confined
+        for j in range(cnt(chk, 6, 20)):
+            psi = gen.random_formula(rng, rng.randint(1, 3), props, max_vars=1, unops=["Not", "EX", "AX", "EF", "AG"],
+                                     binops=["And", "Or", "EU"])
+            if psi[0] == "T":
+                psi = ("U", "AX", psi)
+            vx = gen.T("V", "x")
+            inner = ("H", rng.choice(gen.QUANTS), "x", "d", rng.choice([("B", "And", vx, psi), ("H", "Jump", "x", None, psi), psi]))
+            outer = rng.choice([psi, ("H", rng.choice(gen.QUANTS), "x", None, ("B", "And", vx, psi)), ("U", "Not", psi)])
+            ctx = [(l, ctx_spec(rng)) for l in labels]
+            chk.add_eval(net, 1, "es", [("B", rng.choice(["Or", "And"]), inner, outer)], ctx=ctx, tag="closed-in-out", netname=nm)
+            chk.add_eval(net, 1, "es", [inner, outer], ctx=ctx, tag="closed-in-out-batch", netname=nm)
         # README equivalences for arbitrary bodies, evaluated through the API
         for j in range(cnt(chk, 6, 20)):
             body = gen.random_formula(rng, rng.randint(0, 4), props, scope=["x"], max_vars=2, wilds=("p",))
@@ -314,14 +327,26 @@ def nested_batch(rng, props, ext):
     if rng.random() < 0.5:
         core = gen.random_formula(rng, rng.randint(1, 3), props, max_vars=1)
         core_var = None
-        while core[0] == "T":
+        tries = 0
+        while core[0] == "T" or (tries < 30 and not any(x[0] == "T" and x[1] == "P" for x in gen.subtrees(core))):
             core = gen.random_formula(rng, rng.randint(1, 3), props, max_vars=1)
+            tries += 1
     else:
         core = gen.random_formula(rng, rng.randint(1, 3), props, scope=["q"], max_vars=1)
         core_var = "q" if "q" in gen.free_vars(core) else None
         if core[0] == "T":
             core = ("U", "EF", core)
     fs = []
+    if core_var is None and ext and rng.random() < 0.6:
+        # the closed duplicate below a restricted quantifier with an unrestricted one nested
+        # inside (in both orders), and again outside both
+        qa, qb = rng.choice(gen.QUANTS), rng.choice(gen.QUANTS)
+        body = ("B", rng.choice(["And", "Or"]), core, ("H", "Jump", "x", None, ("U", rng.choice(["EX", "EF"]), gen.T("V", "y"))))
+        fs.append(("H", qa, "x", "d", ("H", qb, "y", None, body)))
+        if rng.random() < 0.5:
+            fs.append(("H", qb, "x", None, ("H", qa, "y", "d", body)))
+        fs.append(rng.choice([core, ("U", "Not", core), ("H", "Exists", "x", None, ("B", "And", gen.T("V", "x"), core))]))
+        return fs
     for _ in range(rng.randint(2, 4)):
         f = plug_context(rng, props, core, core_var, ext)
         if gen.free_vars(f) or core_requantified(f):
@@ -371,20 +396,50 @@ def swapped_batch(rng, props, ext):
     return [f, g] if rng.random() < 0.5 else [f]
 
 
+def cross_domain_batch(rng, props, ext):
+    """a one-variable sub-formula shared between scopes in which its variable has the SAME domain but
+    a different name, while the name it has in the other scope is restricted by another domain
+    (the renaming of a cached set must not pick up the current scope's restriction of the old name)"""
+    for _ in range(20):
+        core = gen.random_formula(rng, rng.randint(1, 3), props, scope=["x"], max_vars=1,
+                                  unops=["Not", "EX", "AX", "EF", "AG"], binops=["And", "Or", "EU"])
+        if gen.free_vars(core) == {"x"} and core[0] != "T":
+            break
+    else:
+        core = ("U", "AX", gen.T("V", "x"))
+    core_y = subst_vars(core, {"x": "y"})
+    da, db = ("d", "e2") if ext else (None, None)
+    wrap = lambda v, c: rng.choice([("H", "Jump", v, None, c), ("B", "And", gen.T("V", v), c), c])
+    inner = ("H", rng.choice(gen.QUANTS), "x", db, wrap("x", core))
+    outer = ("H", rng.choice(gen.QUANTS), "x", da,
+             ("H", rng.choice(gen.QUANTS), "y", db, rng.choice([("H", "Jump", "x", None, core_y),
+                                                               ("B", "And", core_y, ("U", "EF", gen.T("V", "x"))), core_y])))
+    fs = [inner, outer]
+    if rng.random() < 0.5:
+        fs.append(("B", rng.choice(["And", "Or"]), inner, outer))
+    return fs
+
+
 def gen_C04(chk):
     rng = chk.rng
     ws = worlds(chk, quick_names=["N02", "N05", "N06", "N07", "N09", "N16", "N21", "N22"],
                 n_random=cnt(chk, 5, 20))
     for nm, net in ws:
         props = net_props(net)
-        for j in range(cnt(chk, 12, 36)):
+        for j in range(cnt(chk, 15, 40)):
             ext = rng.random() < 0.6
-            fs = [planted_batch, nested_batch, swapped_batch][j % 3](rng, props, ext)
+            fs = [planted_batch, nested_batch, swapped_batch, cross_domain_batch, nested_batch][j % 5](rng, props, ext)
             if len(fs) < 1:
                 continue
             fs = fs[:4]
             k = max(gen.quant_depth(f) for f in fs)
-            ctx = [("p", ctx_spec(rng)), ("d", ctx_spec(rng))] if ext else []
+            ctx = [("p", ctx_spec(rng)), ("d", ctx_spec(rng)), ("e2", ctx_spec(rng))] if ext else []
+            if ext and j % 5 == 3 and rng.random() < 0.7:
+                # the two domains differ a lot (disjoint, or one literal each)
+                a = rng.choice(props)
+                b = rng.choice(props)
+                sd, se = rng.choice([(a, "~" + a), ("~" + a, a), (a, b), ("%s & %s" % (a, b), "~%s" % b)])
+                ctx = [("p", ctx_spec(rng)), ("d", "f" + gen.hx(sd)), ("e2", "f" + gen.hx(se))]
             mode = ("e" if ext else "") + "s"
             perms = list(itertools.permutations(range(len(fs))))
             rng.shuffle(perms)
@@ -495,6 +550,27 @@ def gen_C10(chk):
                     b0 = chk.add_eval(net, kk, "es", [g0], ctx=[("d", dspec)], tag="dom2-base", netname=nm)
                     c1 = chk.add_eval(net, kk, "es", [g1], ctx=[("d", dspec), ("w0", "f" + gen.hx(gen.render(s0)))],
                                       tag="dom2-subst", netname=nm)
+                    chk.cases[c1]["pair"] = b0
+            # the replaced sub-formula inside a one-variable context that occurs under two different
+            # variable names, once in an unrestricted scope and once below a restricted quantifier
+            # (after the replacement the context becomes a shareable duplicate that must be renamed)
+            if closed and j % 3 == 0:
+                s0 = rng.choice(closed)
+                pr = gen.T("P", rng.choice(props))
+                op1, op2 = rng.choice(["EF", "EX", "AX"]), rng.choice(["And", "Or"])
+                G = lambda v: ("U", op1, ("B", op2, gen.T("V", v), s0))
+                for q in gen.QUANTS:
+                    left = ("H", rng.choice(gen.QUANTS), "w", None, ("H", "Jump", "w", None, ("B", "Or", pr, G("w"))))
+                    right = ("H", q, "w", "d", ("H", rng.choice(gen.QUANTS), "u", None, ("H", "Jump", "u", None, G("u"))))
+                    g0 = ("B", rng.choice(["And", "Or"]), left, right)
+                    g1 = replace_subtree(g0, s0, gen.T("W", "w0"))
+                    dspec = rng.choice([ctx_spec(rng), "f" + gen.hx(gen.render(("U", "Not", pr)))])
+                    kk = gen.quant_depth(g0)
+                    if kk > 3 or len(props) * (1 + kk) > 12:
+                        continue
+                    b0 = chk.add_eval(net, kk, "es", [g0], ctx=[("d", dspec)], tag="dom3-base", netname=nm)
+                    c1 = chk.add_eval(net, kk, "es", [g1], ctx=[("d", dspec), ("w0", "f" + gen.hx(gen.render(s0)))],
+                                      tag="dom3-subst", netname=nm)
                     chk.cases[c1]["pair"] = b0
             if not closed:
                 continue
@@ -703,6 +779,9 @@ def gen_C15(chk):
                 cs = chk.add_eval(net, k, "s", [f], tag="k=%d" % (k - d), netname=nm)
                 cd = chk.add_eval(net, k, "", [f], tag="dirty", netname=nm)
                 group.append(cs)
+                if j % 2 == 0:
+                    # the tree entry points sanitise as well (single tree, and with an observer)
+                    group.append(chk.add_eval(net, k, "st" + ("3" if j % 4 == 0 else ""), [f], tag="tree", netname=nm))
             for g in group:
                 chk.cases[g]["group"] = group
                 chk.cases[g]["perm"] = (0,)
@@ -737,6 +816,16 @@ def gen_C18(chk):
                 f = ("B", "AW", f, gen.T("P", rng.choice(props)))
             a = chk.add_eval(net, 0, "u", [f], tag="unsafe-aw", netname=nm)
             b = chk.add_eval(net, 0, "", [f], tag="standard", netname=nm)
+            chk.cases[a]["pair"] = b
+        # the attractor pattern is in the fragment (no EX-based operator in it)
+        att = ("H", "Bind", "x", None, ("U", "AG", ("U", "EF", gen.T("V", "x"))))
+        pr = gen.T("P", rng.choice(props))
+        for f in [att, ("U", "EF", att), ("U", "Not", att), ("B", "EU", pr, att), ("B", "AW", att, pr),
+                  ("H", "Exists", "y", None, ("H", "Jump", "y", None, ("B", "And", att, pr))),
+                  ("B", "And", att, ("U", "AG", ("U", "Not", att)))]:
+            k = gen.quant_depth(f)
+            a = chk.add_eval(net, k, "u", [f], tag="unsafe-pattern", netname=nm)
+            b = chk.add_eval(net, k, "", [f], tag="standard", netname=nm)
             chk.cases[a]["pair"] = b
     # all formulae on steady-state-free networks
     for nm in gen.NO_STEADY:
